@@ -111,6 +111,7 @@ let rec take k l = if k = 0 then [] else match l with [] -> [] | x :: r -> x :: 
 let rec drop k l = if k = 0 then l else match l with [] -> [] | _ :: r -> drop (k - 1) r
 
 let partition (spec : string) (data : 'a list) : 'a list list =
+  if data = [] then [[]] else
   let body = String.sub spec 1 (String.length spec - 1) in
   match spec.[0] with
   | 'w' -> [data]
